@@ -85,9 +85,14 @@ inductive BuildResult
   | uri (bytes : List Nat)
   | panic
 
+/-- `build()` unwraps `Uri::from_maybe_shared`: an empty buffer (`Empty`), a buffer that begins with the query
+(`?k=v`, `InvalidFormat` — the pushes write nothing else that does not begin with `/`) and a buffer beyond the length
+limit (`TooLong`) are refused there, and the unwrap panics -/
 def build (tbl : List Nat) (ps : List Push) : BuildResult :=
   let b := buildBuf tbl ps
-  if b.length ≤ maxUriLen then .uri b else .panic
+  match b with
+  | 47 :: _ => if b.length ≤ maxUriLen then .uri b else .panic
+  | _ => .panic
 
 /-! ### server side -/
 
